@@ -374,4 +374,221 @@ theorem isB64_friendly (a : Addr) (url b t : Bool) (hw : Bytes.WF a.hash) (hlen 
   rw [h1, h2, signedByte_wc a.wc hwc]
   cases b <;> cases t <;> rfl
 
+/-! ### the raw form `"{wc}:{hash.hex()}"` -/
+
+/-- a character that `int(.., base)` reads as a plain digit: no white space, sign, underscore, prefix letter
+or colon. -/
+def PlainDigit (base : Nat) (c : Char) : Prop :=
+  isPySpace c = false ∧ c ≠ ':' ∧ c ≠ '_' ∧ c ≠ '-' ∧ c ≠ '+' ∧ c ≠ 'x' ∧ c ≠ 'X' ∧
+    (digitVal? base c).isSome = true
+
+theorem hexDigit_plain : ∀ n, n < 16 → PlainDigit 16 (hexDigit n) ∧ hexVal? (hexDigit n) = some n := by
+  unfold PlainDigit; decide +kernel
+
+theorem decDigit_plain : ∀ n, n < 10 →
+    PlainDigit 10 (Char.ofNat (48 + n)) ∧ digitVal? 10 (Char.ofNat (48 + n)) = some n := by
+  unfold PlainDigit; decide +kernel
+
+/-- value of a digit string, most significant first. -/
+def valOf (base : Nat) (s : List Char) : Nat :=
+  s.foldl (fun a c => a * base + (digitVal? base c).getD 0) 0
+
+theorem dropWhile_none {p : Char → Bool} : ∀ (s : List Char), (∀ c ∈ s, p c = false) → s.dropWhile p = s := by
+  intro s h
+  cases s with
+  | nil => rfl
+  | cons c r => simp [List.dropWhile, h c (by simp)]
+
+theorem stripSpace_id (s : List Char) (h : ∀ c ∈ s, isPySpace c = false) : stripSpace s = s := by
+  unfold stripSpace
+  rw [dropWhile_none s h, dropWhile_none s.reverse (by simpa using h), List.reverse_reverse]
+
+theorem digitsGo_plain (base : Nat) : ∀ (s : List Char), (∀ c ∈ s, PlainDigit base c) → ∀ (acc cnt : Nat),
+    digitsGo base s acc cnt =
+      some (s.foldl (fun a c => a * base + (digitVal? base c).getD 0) acc, cnt + s.length) := by
+  intro s
+  induction s with
+  | nil => intro _ acc cnt; simp [digitsGo]
+  | cons c r ih =>
+    intro h acc cnt
+    have hc := h c (by simp)
+    obtain ⟨v, hv⟩ := Option.isSome_iff_exists.mp hc.2.2.2.2.2.2.2
+    rw [digitsGo.eq_def]
+    simp only [hc.2.2.1, if_false, hv]
+    rw [ih (fun x hx => h x (by simp [hx]))]
+    simp [hv]; omega
+
+theorem stripHexPrefix_plain (base : Nat) (s : List Char) (h : ∀ c ∈ s, PlainDigit base c) :
+    stripHexPrefix s = s := by
+  match s, h with
+  | [], _ => rfl
+  | [_], _ => rfl
+  | c :: x :: r, h =>
+    have hx := h x (by simp)
+    simp [stripHexPrefix, hx.2.2.2.2.2.1, hx.2.2.2.2.2.2.1]
+
+/-- `int()` on an optional minus sign followed by plain digits. -/
+theorem pyInt_plain (base : Nat) (neg : Bool) (ds : List Char) (hne : ds ≠ [])
+    (hp : ∀ c ∈ ds, PlainDigit base c) (hlim : ¬ (base = 10 ∧ maxStrDigits < ds.length)) :
+    pyInt base (if neg then '-' :: ds else ds)
+      = some (if neg then -(valOf base ds : Int) else (valOf base ds : Int)) := by
+  obtain ⟨c, r, rfl⟩ := List.exists_cons_of_ne_nil hne
+  have hc := hp c (by simp)
+  have hsp : ∀ x ∈ (if neg then '-' :: c :: r else c :: r), isPySpace x = false := by
+    intro x hx
+    cases neg
+    · exact (hp x (by simpa using hx)).1
+    · simp only [if_true, List.mem_cons] at hx
+      rcases hx with rfl | hx
+      · decide
+      · exact (hp x (by simpa using hx)).1
+  have hsign : stripSign (if neg then '-' :: c :: r else c :: r) = (neg, c :: r) := by
+    cases neg
+    · simp [stripSign, hc.2.2.2.1, hc.2.2.2.2.1]
+    · simp [stripSign]
+  have hpre : (if base = 16 then stripHexPrefix (c :: r) else c :: r) = c :: r := by
+    split
+    · exact stripHexPrefix_plain base _ hp
+    · rfl
+  unfold pyInt
+  simp only [stripSpace_id _ hsp, hsign, hpre, hc.2.2.1, if_false, digitsGo_plain base (c :: r) hp 0 0,
+    Nat.zero_add, hlim, valOf]
+
+theorem decDigits_ne_nil (n : Nat) : decDigits n ≠ [] := by
+  rw [decDigits]; split <;> simp
+
+theorem decDigits_plain : ∀ (n : Nat), ∀ c ∈ decDigits n, PlainDigit 10 c := by
+  intro n
+  induction n using decDigits.induct with
+  | case1 n h =>
+    intro c hc
+    rw [decDigits, if_pos h] at hc
+    simp only [List.mem_cons, List.not_mem_nil, or_false] at hc
+    rw [hc]; exact (decDigit_plain n h).1
+  | case2 n h ih =>
+    intro c hc
+    rw [decDigits, if_neg h, List.mem_append] at hc
+    rcases hc with hc | hc
+    · exact ih c hc
+    · simp only [List.mem_cons, List.not_mem_nil, or_false] at hc
+      rw [hc]; exact (decDigit_plain (n % 10) (by omega)).1
+
+theorem decDigits_val : ∀ (n : Nat), valOf 10 (decDigits n) = n := by
+  intro n
+  induction n using decDigits.induct with
+  | case1 n h =>
+    rw [decDigits, if_pos h]
+    simp [valOf, (decDigit_plain n h).2]
+  | case2 n h ih =>
+    rw [decDigits, if_neg h]
+    unfold valOf at ih ⊢
+    rw [List.foldl_append, ih]
+    simp only [List.foldl_cons, List.foldl_nil, (decDigit_plain (n % 10) (by omega)).2, Option.getD_some]
+    omega
+
+/-- `int(str(z)) == z` whenever `str(z)` exists. -/
+theorem pyInt_pyStrInt (z : Int) (w : List Char) (h : pyStrInt z = some w) : pyInt 10 w = some z := by
+  unfold pyStrInt at h
+  simp only at h
+  split at h
+  · cases h
+  · rename_i hlim
+    injection h with h
+    have := pyInt_plain 10 (decide (z < 0)) (decDigits z.natAbs) (decDigits_ne_nil _) (decDigits_plain _)
+      (by intro hh; exact hlim hh.2)
+    rw [decDigits_val] at this
+    by_cases hz : z < 0
+    · simp only [hz, decide_true, if_true] at this h
+      rw [← h, this]; congr 1; omega
+    · simp only [hz, decide_false, Bool.false_eq_true, if_false] at this h
+      rw [← h, this]; congr 1; omega
+
+theorem pyStrInt_no_colon (z : Int) (w : List Char) (h : pyStrInt z = some w) : ∀ c ∈ w, c ≠ ':' := by
+  unfold pyStrInt at h
+  simp only at h
+  split at h
+  · cases h
+  · injection h with h
+    intro c hc
+    rw [← h] at hc
+    split at hc
+    · simp only [List.mem_cons] at hc
+      rcases hc with rfl | hc
+      · decide
+      · exact (decDigits_plain _ c hc).2.1
+    · exact (decDigits_plain _ c hc).2.1
+
+theorem hexChars_plain : ∀ (bs : Bytes), Bytes.WF bs → ∀ c ∈ hexChars bs, PlainDigit 16 c := by
+  intro bs hw c hc
+  unfold hexChars at hc
+  rw [List.mem_flatMap] at hc
+  obtain ⟨b, hb, hc⟩ := hc
+  have := hw b hb
+  simp only [List.mem_cons, List.not_mem_nil, or_false] at hc
+  rcases hc with rfl | rfl
+  · exact (hexDigit_plain _ (by omega)).1
+  · exact (hexDigit_plain _ (by omega)).1
+
+theorem pyFromHex_hexChars : ∀ (bs : Bytes), Bytes.WF bs → pyFromHex (hexChars bs) = some bs := by
+  intro bs
+  induction bs with
+  | nil => intro _; rfl
+  | cons b bs ih =>
+    intro hw
+    have hb : b < 256 := hw b (by simp)
+    have h1 := hexDigit_plain (b / 16) (by omega)
+    have h2 := hexDigit_plain (b % 16) (by omega)
+    have e : hexChars (b :: bs) = hexDigit (b / 16) :: hexDigit (b % 16) :: hexChars bs := rfl
+    rw [e, pyFromHex]
+    simp only [h1.1.1, Bool.false_eq_true, if_false, h1.2, h2.2, ih (fun x hx => hw x (by simp [hx]))]
+    congr 2; omega
+
+theorem splitColon_two : ∀ (w h : List Char), (∀ c ∈ w, c ≠ ':') → (∀ c ∈ h, c ≠ ':') →
+    splitColon (w ++ ':' :: h) = [w, h] := by
+  intro w
+  induction w with
+  | nil => intro h _ hh; simp [splitColon, splitColon_no_colon h hh]
+  | cons c w ih =>
+    intro h hw hh
+    have hc : c ≠ ':' := hw c (by simp)
+    simp [splitColon, hc, ih h (fun x hx => hw x (by simp [hx])) hh]
+
+/-- `is_hex` on the raw text of an address with a non-empty hash. -/
+theorem isHex_raw (z : Int) (w : List Char) (hash : Bytes) (hz : pyStrInt z = some w) (hw : Bytes.WF hash)
+    (hne : hash ≠ []) : isHex (w ++ ':' :: hexChars hash) = some { wc := z, hash := hash } := by
+  have hp := hexChars_plain hash hw
+  unfold isHex
+  rw [splitColon_two w _ (pyStrInt_no_colon z w hz) (fun c hc => (hp c hc).2.1)]
+  have hhne : hexChars hash ≠ [] := by
+    obtain ⟨b, r, rfl⟩ := List.exists_cons_of_ne_nil hne
+    simp [hexChars]
+  have h16 := pyInt_plain 16 false (hexChars hash) hhne hp (by simp)
+  simp only [Bool.false_eq_true, if_false] at h16
+  simp only [h16, pyInt_pyStrInt z w hz, pyFromHex_hexChars hash hw]
+
+theorem decDigits_length_le : ∀ (k n : Nat), n < 10 ^ (k + 1) → (decDigits n).length ≤ k + 1 := by
+  intro k
+  induction k with
+  | zero =>
+    intro n h
+    rw [decDigits, if_pos (by simpa using h)]; simp
+  | succ k ih =>
+    intro n h
+    rw [decDigits]
+    split
+    · simp
+    · have h2 : n / 10 < 10 ^ (k + 1) := by
+        apply Nat.div_lt_of_lt_mul
+        rw [Nat.pow_succ] at h; omega
+      have := ih (n / 10) h2
+      simp only [List.length_append, List.length_cons, List.length_nil]; omega
+
+/-- `str(z)` exists for every integer of at most 4300 digits. -/
+theorem pyStrInt_isSome (z : Int) (h : z.natAbs < 10 ^ (4299 + 1)) : (pyStrInt z).isSome = true := by
+  have := decDigits_length_le 4299 z.natAbs h
+  unfold pyStrInt maxStrDigits
+  simp only
+  rw [if_neg (by omega)]
+  rfl
+
 end TonVerif.Proofs.Address
